@@ -85,6 +85,9 @@ func checkSPDXOutput(doc *sbom.Document, out []byte) error {
 		ro := jsonObj(r)
 		a, b, ty := jsonStr(ro["spdxElementId"]), jsonStr(ro["relatedSpdxElement"]), jsonStr(ro["relationshipType"])
 		for _, end := range []string{a, b} {
+			if end == "NONE" || end == "NOASSERTION" {
+				continue // keywords of the specification (no / unknown related element), not references
+			}
 			if end != "SPDXRef-DOCUMENT" && emitted[end] == 0 {
 				return fmt.Errorf("relationship %s %s %s refers to %s, which was not emitted", a, ty, b, end)
 			}
@@ -104,25 +107,11 @@ func checkSPDXOutput(doc *sbom.Document, out []byte) error {
 			}
 		}
 	}
-	describes := map[string]bool{}
+	// (how root elements are described — DESCRIBES relationships, documentDescribes — is C01's subject: the statement
+	// here is about nodes, relationships and references; a documentDescribes entry is a reference, though)
 	for _, r := range jsonArr(j["documentDescribes"]) {
-		describes[jsonStr(r)] = true
-	}
-	for _, r := range doc.NodeList.RootElements {
-		if rels["SPDXRef-DOCUMENT DESCRIBES SPDXRef-"+r] == 0 && !describes["SPDXRef-"+r] {
-			return fmt.Errorf("root element %q is not described by the document", r)
-		}
-	}
-	for k := range rels {
-		if strings.HasPrefix(k, "SPDXRef-DOCUMENT DESCRIBES ") {
-			id := strings.TrimPrefix(k, "SPDXRef-DOCUMENT DESCRIBES SPDXRef-")
-			isRoot := false
-			for _, r := range doc.NodeList.RootElements {
-				isRoot = isRoot || r == id
-			}
-			if !isRoot {
-				return fmt.Errorf("output invents the root element %q", id)
-			}
+		if emitted[jsonStr(r)] == 0 {
+			return fmt.Errorf("documentDescribes names %q, which was not emitted", jsonStr(r))
 		}
 	}
 	return nil
@@ -134,17 +123,44 @@ func checkSPDX3Output(doc *sbom.Document, out []byte) error {
 	if err := json.Unmarshal(out, &j); err != nil {
 		return fmt.Errorf("output is not JSON: %v", err)
 	}
+	// the beta serializer's spelling of member names and type values is not fixed by anything: members are looked up
+	// without regard to case, an element is whatever carries an id and is no relationship, relationship types are
+	// compared without regard to case and punctuation
+	member := func(o map[string]any, name string) any {
+		for k, v := range o {
+			if strings.EqualFold(k, name) {
+				return v
+			}
+		}
+		return nil
+	}
+	norm := func(s string) string {
+		var b strings.Builder
+		for _, r := range strings.ToLower(s) {
+			if (r >= 'a' && r <= 'z') || (r >= '0' && r <= '9') {
+				b.WriteRune(r)
+			}
+		}
+		return b.String()
+	}
 	emitted := map[string]int{}
 	rels := map[string]int{}
-	for _, e := range jsonArr(j["element"]) {
+	var elements []any
+	for k, v := range j {
+		if strings.EqualFold(k, "element") || strings.EqualFold(k, "elements") || k == "@graph" {
+			elements = append(elements, jsonArr(v)...)
+		}
+	}
+	for _, e := range elements {
 		eo := jsonObj(e)
-		switch jsonStr(eo["type"]) {
-		case "Package", "File":
-			emitted[jsonStr(eo["SpdxId"])]++
-		case "Relationship":
-			for _, to := range jsonArr(eo["to"]) {
-				rels[jsonStr(eo["from"])+" "+jsonStr(eo["relationshipType"])+" "+jsonStr(to)]++
+		if from := member(eo, "from"); from != nil {
+			for _, to := range jsonArr(member(eo, "to")) {
+				rels[jsonStr(from)+" "+norm(jsonStr(member(eo, "relationshipType")))+" "+jsonStr(to)]++
 			}
+			continue
+		}
+		if id := jsonStr(member(eo, "spdxId")); id != "" {
+			emitted[id]++
 		}
 	}
 	for _, n := range doc.NodeList.Nodes {
@@ -157,7 +173,7 @@ func checkSPDX3Output(doc *sbom.Document, out []byte) error {
 	}
 	for _, e := range doc.NodeList.Edges {
 		for _, to := range e.To {
-			if rels[e.From+" "+e.Type.String()+" "+to] == 0 {
+			if rels[e.From+" "+norm(e.Type.String())+" "+to] == 0 {
 				return fmt.Errorf("edge %q -%v-> %q has no relationship element", e.From, e.Type, to)
 			}
 		}
@@ -168,18 +184,9 @@ func checkSPDX3Output(doc *sbom.Document, out []byte) error {
 			return fmt.Errorf("relationship %q refers to an element that was not emitted", k)
 		}
 	}
-	roots := map[string]bool{}
-	for _, r := range jsonArr(j["rootElement"]) {
-		roots[jsonStr(r)] = true
-	}
-	for _, r := range doc.NodeList.RootElements {
-		if !roots[r] {
-			return fmt.Errorf("root element %q is missing from rootElement", r)
-		}
-	}
-	for r := range roots {
-		if emitted[r] == 0 {
-			return fmt.Errorf("rootElement names %q, which was not emitted", r)
+	for _, r := range jsonArr(member(j, "rootElement")) {
+		if emitted[jsonStr(r)] == 0 {
+			return fmt.Errorf("rootElement names %q, which was not emitted", jsonStr(r))
 		}
 	}
 	return nil
@@ -238,12 +245,30 @@ func checkCDXOutput(doc *sbom.Document, out []byte, f formats.Format) error {
 			containers[to][e.From] = true
 		}
 	}
-	for _, ps := range containers {
+	// "exactly once when containment is a forest": containment statements of both directions count
+	allContainers := map[string]map[string]bool{}
+	for c, ps := range containers {
+		allContainers[c] = map[string]bool{}
+		for p := range ps {
+			allContainers[c][p] = true
+		}
+	}
+	for _, e := range nl.Edges {
+		if e.Type == sbom.Edge_contained_by {
+			for _, to := range e.To {
+				if allContainers[e.From] == nil {
+					allContainers[e.From] = map[string]bool{}
+				}
+				allContainers[e.From][to] = true
+			}
+		}
+	}
+	for _, ps := range allContainers {
 		if len(ps) > 1 {
 			multi = true
 		}
 	}
-	forest := !multi && acyclicContainers(containers)
+	forest := !multi && acyclicContainers(allContainers)
 	ids := map[string]bool{}
 	for _, n := range nl.Nodes {
 		ids[n.Id] = true
